@@ -471,6 +471,29 @@ func c08MapToObject(c *Ctx, r *rng.R) {
 		}
 	}
 	c08Pair(c, r, v, o, "map-to-object")
+	if r.Chance(40) {
+		// elements that are tuples, attributes that are tuples of the same and of other lengths with placeholders inside;
+		// the map known, unknown and null
+		tup := func(ts ...*gt.T) *gt.T { return &gt.T{K: gt.Tuple, Elems: ts} }
+		S, N, D := gt.P(gt.Str), gt.P(gt.Num), gt.P(gt.Dyn)
+		mt := &gt.T{K: gt.Map, Elem: tup(S, S)}
+		o2 := &gt.T{K: gt.Obj}
+		for _, k := range []string{"a", "b"} {
+			at := []*gt.T{tup(S, S), tup(S, D), tup(S, D, N), tup(D), tup(S, S, S)}[r.Intn(5)]
+			o2.Attrs = append(o2.Attrs, gt.Attr{Name: k, T: at})
+			if r.Bool() {
+				o2.Opt = append(o2.Opt, k)
+			}
+		}
+		km := cty.MapVal(map[string]cty.Value{"b": cty.TupleVal([]cty.Value{cty.StringVal("p"), cty.StringVal("q")})})
+		for _, mv := range []cty.Value{km, cty.UnknownVal(mt.Build()), cty.NullVal(mt.Build()), cty.ListVal([]cty.Value{cty.UnknownVal(mt.Build())})} {
+			tg := o2
+			if mv.Type().IsListType() {
+				tg = &gt.T{K: gt.List, Elem: o2}
+			}
+			c08Pair(c, r, mv, tg, "map-of-tuples-to-object")
+		}
+	}
 }
 
 func genC08(c *Ctx, r *rng.R, i int) {
